@@ -195,6 +195,53 @@ def chains_batch(acc, batch):
                           msg=f"chain of {L} targets defined {order}, {op}: {obs}")
 
 
+# ------------------------------------------------------------------------------------------ realfs
+
+INPUT_KINDS = {"file": True, "dir": True, "symlink_to_file": True, "symlink_to_dir": True, "empty_file": True, "missing": False, "broken_symlink": False}
+
+
+def realfs_batch(acc, batch):
+    """A source input on the *real* file system in every form it can take: exists (accepted) or not (unresolved input)."""
+    import shutil
+
+    from gwf.core import CachedFilesystem, Graph
+    from mc.runner import worker_scratch
+
+    base = os.path.join(worker_scratch("c04"), "realfs")
+    for kind, spelled_abs, consumers in batch:
+        shutil.rmtree(base, ignore_errors=True)
+        os.makedirs(os.path.join(base, "other"))
+        p = os.path.join(base, "inp")
+        if kind == "file":
+            open(p, "w").write("x")
+        elif kind == "empty_file":
+            open(p, "w").close()
+        elif kind == "dir":
+            os.makedirs(p)
+            open(os.path.join(p, "inside"), "w").write("x")
+        elif kind == "symlink_to_file":
+            open(os.path.join(base, "other", "real"), "w").write("x")
+            os.symlink(os.path.join("other", "real"), p)
+        elif kind == "symlink_to_dir":
+            os.symlink("other", p)
+        elif kind == "broken_symlink":
+            os.symlink("nowhere", p)
+        inp = p if spelled_abs else "inp"
+        targets = {f"T{i}": gwfh.mk_target(f"T{i}", [inp], [f"out{i}"], working_dir=base) for i in range(consumers)}
+        try:
+            Graph.from_targets(targets, CachedFilesystem())
+            obs = "ok"
+        except Exception as e:
+            obs = type(e).__name__
+        exp = "ok" if INPUT_KINDS[kind] else "UnresolvedInputError"
+        case = dict(kind="realfs", input=kind, abs=spelled_abs, consumers=consumers)
+        acc.case(key=json.dumps(case), outcome=f"realfs {kind}->{obs}", sample=case)
+        if obs != exp:
+            acc.violation(sig=dict(kind="realfs", input=kind, obs=obs), case=case, expected=exp, observed=obs,
+                          msg=f"a source input that is a {kind.replace('_', ' ')} (spelled {'absolute' if spelled_abs else 'relative'}, {consumers} consumer(s)): expected {exp}, got {obs}")
+    shutil.rmtree(base, ignore_errors=True)
+
+
 # ------------------------------------------------------------------------------------------ cli
 
 BAD_WORKFLOWS = {
@@ -263,6 +310,7 @@ def run(ctx):
     Ls = [1, 2, 10, 100, 400, 600, 1000, 2000] + ([] if quick else [3500, 5000])
     ctx.pmap(me, "chains_batch", [(L, o, op) for L in Ls for o in ("forward", "reversed", "interleaved") for op in ("graph", "dfs", "status", "submit", "touch")], chunk=1)
     ctx.pmap(me, "chains_batch", [(L, o, op) for L in (6, 20, 40, 80) for o in ("layers_sources_first", "layers_sinks_first") for op in ("graph", "dfs", "status", "submit", "touch")], chunk=1)
+    ctx.pmap(me, "realfs_batch", [(k, a, n) for k in INPUT_KINDS for a in (False, True) for n in (1, 2)], chunk=4)
     ctx.pmap(me, "cli_batch", [(w, c, b) for w in BAD_WORKFLOWS for c in COMMANDS for b in (("slurm",) if quick else ("slurm", "sge", "lsf"))], chunk=4)
     ctx.rule = ("sets: (target set with arbitrary input/output subsets, existing-file subset) — each repeated over every definition order and spelling "
                 "offsets; rings/chains: parametric families; cli: (ill-formed workflow, command, backend); every case has a defined expected classification")
@@ -286,6 +334,8 @@ def replay(case):
         rings_batch(acc, [(case["k"], case["rot"], case["variant"])])
     elif k == "chains":
         chains_batch(acc, [(case["L"], case["order"], case["op"])])
+    elif k == "realfs":
+        realfs_batch(acc, [(case["input"], case["abs"], case["consumers"])])
     elif k == "cli":
         cli_batch(acc, [(case["wf"], case["cmd"], case["backend"])])
     return acc.violations
